@@ -420,3 +420,12 @@ fn pothen_sun(parent: &[usize], post: &[usize], degree: &[usize]) -> (Vec<usize>
 fn new_vertex_sets(n: usize) -> Vec<VertexSet> {
     (0..n).map(|_| VertexSet::new()).collect()
 }
+
+// verification-only hooks (see /verif); compiled only under the guard cfg
+#[cfg(oxfordcontrol_clarabel_rs_verif)]
+pub(crate) mod verif_hooks_snt {
+    use crate::algebra::*;
+    pub(crate) fn parent_from_L<T: FloatT>(L: &CscMatrix<T>) -> Vec<usize> {
+        super::parent_from_L(L)
+    }
+}
